@@ -10,4 +10,4 @@ import WtfModel.Props.C05
 #print axioms Wtf.C05.update_clears
 #print axioms Wtf.C05.disabled_bypasses
 #print axioms Wtf.C05.switches_agree
-#print axioms Wtf.C05.nan_fallback_breaks_transparency
+#print axioms Wtf.C05.old_fallback_breaks_transparency
